@@ -106,7 +106,7 @@ func newEngine(lookback int64) *promql.Engine {
 		EnableAtModifier:         true,
 		EnableNegativeOffset:     true,
 		LookbackDelta:            time.Duration(lookback) * time.Millisecond,
-		Parser:                   parser.NewParser(parser.Options{EnableExperimentalFunctions: true}),
+		Parser:                   parser.NewParser(parser.Options{EnableExperimentalFunctions: true, EnableExtendedRangeSelectors: true}),
 	})
 }
 
@@ -269,6 +269,7 @@ type tcase struct {
 	n               int
 	t0, t1          int64 // data time span
 	corpus          string
+	extR            int64    // > 0: extended-range-selector case, the range its step was chosen against
 	extra           []string // fixed additional range-vs-instant queries (corpus)
 	split           []int // per series: index where info{version} changes from "1" to "2" (-1: constant)
 }
@@ -368,6 +369,10 @@ func genHist(r *gen.Rand, prev *histogram.FloatHistogram) *histogram.FloatHistog
 
 func genCase(r *gen.Rand) tcase {
 	c := tcase{lookback: gen.Pick(r, lookbacks), iv: gen.Pick(r, scrapes)}
+	ext := r.Chance(1, 4) // extended-range-selector stream (smoothed / anchored)
+	if ext {
+		c.lookback = r.PickI64(20000, 60000, 20000)
+	}
 	k := 1 + r.Intn(3)
 	t0 := r.Range(400000, 2000000)
 	c.t0, c.t1 = t0, t0
@@ -376,6 +381,9 @@ func genCase(r *gen.Rand) tcase {
 		n := r.Intn(22)
 		if r.Chance(1, 12) {
 			n = r.Intn(2)
+		}
+		if ext {
+			n = 12 + r.Intn(28)
 		}
 		ts, st := genTimes(r, t0+r.Range(0, c.iv), c.iv, n, c.lookback)
 		g := "x"
@@ -449,6 +457,15 @@ func genCase(r *gen.Rand) tcase {
 			c.start = t - int64(r.Intn(c.n))*c.step
 			break
 		}
+	}
+	if ext {
+		// the step relative to range + lookback (anchored buffers range+lookback, smoothed
+		// range+2*lookback; ReduceDelta lowers the buffer to min(that, step) after the first step)
+		c.extR = r.PickI64(c.iv, 2*c.iv, 5*c.iv+1, 1000, 3*c.iv)
+		base := c.extR + c.lookback
+		c.step = r.PickI64(base-1, base, base+1, base+c.lookback+1, base+c.lookback, base+c.lookback-1, 3*base, c.extR, c.extR/2+1, base+c.lookback/2)
+		c.n = 2 + r.Intn(6)
+		c.start = c.t0 + r.Range(0, 3*c.iv+c.extR)
 	}
 	if c.start < 1 {
 		c.start = 1
@@ -579,6 +596,33 @@ func (g *qgen) infoJoin(depth int) string {
 		return "(" + one + ") " + op + on + "group_right " + incl + " (" + many + ")"
 	}
 	return "(" + many + ") " + op + on + "group_left " + incl + " (" + one + ")"
+}
+
+// range functions over extended range selectors: f(sel[r] <offset/@> smoothed|anchored), and the
+// smoothed instant selector.  The range is taken relative to the step and the lookback delta.
+func (g *qgen) extQuery() string {
+	r, c := g.r, g.c
+	rng := c.extR
+	if rng <= 0 || r.Chance(1, 3) {
+		rng = r.PickI64(c.step-c.lookback-1, c.step-c.lookback, c.step-c.lookback+1, c.step-2*c.lookback-1,
+			c.step-2*c.lookback, c.step, c.step+1, c.step/3+1, 2*c.iv, 5*c.iv+1, c.iv)
+		if rng < 1 {
+			rng = r.PickI64(2*c.iv, c.iv, 5*c.iv+1)
+		}
+	}
+	mod := gen.Pick(r, []string{"smoothed", "smoothed", "anchored"})
+	fns := []string{"rate", "increase", "delta"}
+	if mod == "anchored" {
+		fns = append(fns, "resets", "changes")
+	}
+	if mod == "smoothed" && r.Chance(1, 8) {
+		return g.selector(false) + g.mods() + " smoothed"
+	}
+	q := gen.Pick(r, fns) + "(" + g.selector(false) + "[" + dur(rng) + "]" + g.mods() + " " + mod + ")"
+	if r.Chance(1, 5) {
+		q = gen.Pick(r, []string{"sum by (g) (", "max(", "abs("}) + q + ")"
+	}
+	return q
 }
 
 func (g *qgen) atMod() string {
@@ -1118,6 +1162,17 @@ func main() {
 		km := keymap{}
 		var gterms []string
 		nontrivial := false
+		{
+			// extended range selectors: 3 queries per case (range-vs-instant)
+			g := &qgen{r: r, c: &c}
+			ne := 2
+			if c.extR > 0 {
+				ne = 4
+			}
+			for i := 0; i < ne; i++ {
+				c.extra = append(c.extra, g.extQuery())
+			}
+		}
 		for gi := -len(c.extra); gi < 5; gi++ {
 			hist := len(c.hser) > 0 && r.Chance(1, 4)
 			depth := 1 + r.Intn(3)
@@ -1316,7 +1371,7 @@ func show(v []osmp) string {
 }
 
 func classify(meta *gallina.Meta, expr string) {
-	for _, k := range []string{"group_left", "group_right", "offset", "@", ":", "rate(", "_over_time(", "sum", "topk", " and ", " or ", "timestamp(", "time()", "h{", "scalar(", "predict_linear("} {
+	for _, k := range []string{"smoothed", "anchored", "group_left", "group_right", "offset", "@", ":", "rate(", "_over_time(", "sum", "topk", " and ", " or ", "timestamp(", "time()", "h{", "scalar(", "predict_linear("} {
 		if strings.Contains(expr, k) {
 			meta.Hit("q:" + strings.TrimSpace(k))
 		}
@@ -1333,6 +1388,13 @@ func regular(s, g string, t0, iv int64, vals ...float64) pseries {
 		p.vals = append(p.vals, v)
 	}
 	return p
+}
+
+var extQueries = []string{
+	"rate(m[10000ms] smoothed)", "increase(m[10000ms] smoothed)", "delta(m[10000ms] smoothed)",
+	"rate(m[10000ms] anchored)", "increase(m[10000ms] anchored)", "delta(m[10000ms] anchored)",
+	"resets(m[10000ms] anchored)", "changes(m[10000ms] anchored)",
+	"increase(m[10000ms] offset 3000ms smoothed)", "rate(m[7000ms] offset -2000ms anchored)", "m smoothed",
 }
 
 var infoQueries = []string{
@@ -1364,6 +1426,14 @@ func corpus() []tcase {
 		split: []int{4, 2}, start: 600000, step: 10000, n: 8, t0: 600000, t1: 670000, corpus: "info-change", extra: infoQueries})
 	l = append(l, tcase{lookback: 60000, iv: 15000, ser: []pseries{regular("a", "x", 600000, 15000, 1, 2, 3, 4, 5, 6)},
 		split: []int{3}, start: 607000, step: 7000, n: 10, t0: 600000, t1: 675000, corpus: "info-change-irregular-steps", extra: infoQueries})
+	// extended range selectors with a step between range+lookback and range+2*lookback, and
+	// beyond: the buffer of a smoothed selector must keep range+2*lookback after the first step
+	l = append(l, tcase{lookback: 20000, iv: 5000, extR: 10000, ser: []pseries{regular("a", "x", 600000, 5000,
+		1, 2, 4, 7, 11, 16, 22, 29, 37, 46, 47, 49, 52, 60, 61, 80, 81, 82, 90, 99, 120, 121, 130, 150, 151, 170, 200, 201, 230, 260)},
+		split: []int{7}, start: 640000, step: 31000, n: 4, t0: 600000, t1: 745000, corpus: "extended-step-31s", extra: extQueries})
+	l = append(l, tcase{lookback: 20000, iv: 5000, extR: 10000, ser: []pseries{regular("a", "x", 600000, 5000,
+		1, 2, 4, 7, 11, 16, 22, 29, 37, 46, 47, 49, 52, 60, 61, 80, 81, 82, 90, 99, 120, 121, 130, 150, 151, 170, 200, 201, 230, 260)},
+		split: []int{7}, start: 633000, step: 52000, n: 3, t0: 600000, t1: 745000, corpus: "extended-step-52s", extra: extQueries})
 	// single step
 	l = append(l, tcase{lookback: 300000, iv: 5000, ser: []pseries{regular("a", "x", 600000, 5000, 3, 1, 4, 1, 5)},
 		start: 612345, step: 1000, n: 1, t0: 600000, t1: 620000, corpus: "single-step"})
